@@ -4,6 +4,7 @@
 From Coq Require Import List NArith ZArith Bool Arith Lia.
 From RecordUpdate Require Import RecordUpdate.
 From JV Require Import Bytes Msg SrvModel SrvLemmas SrvBasics SrvC07 SrvC01 SrvC08 SrvHist.
+From JV Require SrvC03 SrvNoCrash.
 Import ListNotations.
 
 (** * C01 with the history: array iff the inbound message was an array, replies in request order *)
@@ -334,3 +335,407 @@ Example c01_silent_finished_nonvacuous :
   run (init_of ex_cfg) tr <> None /\ ufin (st_of ex_cfg tr) 0 = true /\ responses (unit_tasks (st_of ex_cfg tr) 0) = [] /\
   delivered tr = [] /\ unit_sends tr (obs_of ex_cfg tr) = [].
 Proof. vm_compute. repeat split; auto. discriminate. Qed.
+
+(* the reply of a complete unit never changes, on any trace *)
+Theorem c01_reply_stable_run c s tr s' oss u un : reach c s -> run s tr = Some (s', oss) ->
+  nth_error (units s) u = Some un -> all_finished s u = true ->
+  responses (unit_tasks s' u) = responses (unit_tasks s u).
+Proof.
+  intros R H Eu Fin. apply responses_stable; auto.
+  - apply (run_ext2 c tr s s' oss); auto. apply reach_reachf; auto.
+  - eapply nth_error_some_lt; eauto.
+Qed.
+
+(** * C01: the body of a call is the outcome of its one handler invocation *)
+(* the task an LGate label gives its outcome to: the first running task with these params *)
+Definition gate_idx (s : state) (p : bytes) : option nat :=
+  find_idx (fun t => beq (t_params t) p && match t_st t with TRunning => true | _ => false end) 0 (tasks s).
+
+Definition gate_of (k : nat) (s : state) (l : label) : list outcome :=
+  match l with
+  | LGate p o => match gate_idx s p with Some j => if j =? k then [o] else [] | None => [] end
+  | _ => []
+  end.
+
+(* ghost: the outcomes the gates of the run gave to task k, in trace order *)
+Fixpoint gate_log (k : nat) (s : state) (tr : list label) : list outcome :=
+  match tr with
+  | [] => []
+  | l :: r => match step s l with
+              | Some (s1, _) => gate_of k s l ++ gate_log k s1 r
+              | None => []
+              end
+  end.
+
+(* the life of a task so far: ec = how often its handler was entered, gl = the outcomes it was given *)
+Definition lifet (t : task) (ec : nat) (gl : list outcome) : Prop :=
+  match t_st t with
+  | TSkip | TAtAcquire | TWaiting => ec = 0 /\ gl = []
+  | TRunning => ec = 1 /\ gl = [] /\ t_builtin t = false
+  | TAtHandled o => if t_builtin t then ec = 0 /\ gl = [] /\ o = ORes [] else ec = 1 /\ gl = [o]
+  | TDone bo =>
+      (ec = 0 /\ gl = [] /\ (bo = Some cancel_err \/ (t_builtin t = true /\ bo = body_of_outcome t (ORes [])))) \/
+      (ec = 1 /\ t_builtin t = false /\ exists o, gl = [o] /\ bo = body_of_outcome t o)
+  end.
+
+Definition life (k : nat) (s : state) (ec : nat) (gl : list outcome) : Prop :=
+  match nth_error (tasks s) k with
+  | None => ec = 0 /\ gl = []
+  | Some t => lifet t ec gl
+  end.
+
+Definition fresh_st (t : task) : Prop := t_st t = TSkip \/ t_st t = TAtAcquire.
+
+(* tasks are never removed or changed by settling, and new ones are fresh *)
+Definition grows (s s' : state) : Prop :=
+  keeps_tasks s s' /\ forall k t, nth_error (tasks s) k = None -> nth_error (tasks s') k = Some t -> fresh_st t.
+
+Lemma grows_refl s : grows s s.
+Proof. split; [intros k t E; auto|]. intros k t E1 E2. congruence. Qed.
+
+Lemma grows_trans a b d : grows a b -> grows b d -> grows a d.
+Proof.
+  intros [K1 F1] [K2 F2]. split; [intros k t E; auto|].
+  intros k t Ea Ed. destruct (nth_error (tasks b) k) as [tb|] eqn:Eb.
+  - rewrite (K2 _ _ Eb) in Ed. injection Ed as <-. eauto.
+  - eauto.
+Qed.
+
+Lemma dequeue_grows s : grows s (dequeue s).
+Proof.
+  unfold dequeue. destruct (inq s) as [|[b ms] q].
+  { destruct (running s); (split; [intros k t E; exact E|intros k t E1 E2; cbn in E2; congruence]). }
+  split; cbn.
+  - intros k t E. apply nth_error_app_old; auto.
+  - intros k t E1 E2. apply nth_error_None in E1. rewrite nth_error_app2 in E2 by auto.
+    apply nth_error_In, in_map_iff in E2 as (m & <- & _).
+    destruct (mk_task_st s (length (units s)) (map (fun m0 => fix_id (j_id m0)) ms) m) as [[S _]|[S _]];
+      [left|right]; exact S.
+Qed.
+
+Lemma settle1_grows s s' os : settle1 s = Some (s', os) -> grows s s'.
+Proof.
+  intros H. apply settle1_inv in H. destruct H; try apply grows_refl; try apply dequeue_grows.
+  all: split; [intros k t E; exact E|intros k t E1 E2; cbn in E2; congruence].
+Qed.
+
+Lemma settle_grows : forall fuel s acc s' os, settle fuel s acc = (s', os) -> grows s s'.
+Proof.
+  induction fuel as [|f IH]; cbn; intros s acc s' os H.
+  - injection H as <- _. apply grows_refl.
+  - destruct (settle1 s) as [[s1 os1]|] eqn:E.
+    + eapply grows_trans; [eapply settle1_grows; eauto|eapply IH; eauto].
+    + injection H as <- _. apply grows_refl.
+Qed.
+
+(* the gate window, with the index it chose *)
+Lemma gate_window_idx s p o s' os : step s (LGate p o) = Some (s', os) ->
+  exists k t, gate_idx s p = Some k /\ nth_error (tasks s) k = Some t /\ t_st t = TRunning /\
+    nth_error (tasks s') k = Some (t <| t_st := TAtHandled o |>) /\
+    (forall j tj, j <> k -> nth_error (tasks s) j = Some tj -> nth_error (tasks s') j = Some tj) /\
+    (forall j, nth_error (tasks s) j = None -> forall tj, nth_error (tasks s') j = Some tj -> fresh_st tj).
+Proof.
+  intros H. apply step_decompose in H as (_ & s1 & os1 & Hr & Hs).
+  assert (G : grows s1 s').
+  { destruct Hs as [(_ & -> & _)|(_ & Hs)]; [apply grows_refl|eapply settle_grows; eauto]. }
+  destruct G as [K Fr].
+  unfold step_raw in Hr. fold (gate_idx s p) in Hr.
+  destruct (gate_idx s p) as [k|] eqn:F; [|discriminate].
+  destruct (nth_error (tasks s) k) as [t|] eqn:E; [|discriminate]. injection Hr as <- <-.
+  unfold gate_idx in F. apply find_idx_some in F as (x & Ex & Px & _). rewrite Nat.sub_0_r, E in Ex. injection Ex as <-.
+  apply andb_true_iff in Px as [_ Ps].
+  exists k, t. split; auto. split; auto. split; [destruct (t_st t); try discriminate; auto|]. split; [|split].
+  - apply K. cbn. apply nth_error_upd_nth_eq; auto.
+  - intros j tj N Ej. apply K. cbn. rewrite nth_error_upd_nth_neq; auto.
+  - intros j Ej tj Ej'. apply (Fr j); auto. cbn. rewrite nth_error_upd_nth.
+    destruct (k =? j); rewrite Ej; reflexivity.
+Qed.
+
+(* what the acquire window makes of its task *)
+Lemma acquire_st s k s1 os t t1 : step_raw s (LRelAcquire k) = Some (s1, os) ->
+  nth_error (tasks s) k = Some t -> nth_error (tasks s1) k = Some t1 ->
+  (t_st t1 = TRunning -> t_builtin t = false) /\ (forall o, t_st t1 = TAtHandled o -> t_builtin t = true /\ o = ORes []).
+Proof.
+  intros H E E1. unfold step_raw in H. rewrite E in H.
+  destruct (t_st t) eqn:St; try discriminate.
+  destruct (negb (unit_running s t)); [discriminate|].
+  assert (Q : forall x s2, s1 = s2 -> tasks s2 = upd_nth k (fun t => t <| t_st := x |>) (tasks s) -> t_st t1 = x).
+  { intros x s2 -> T. rewrite T in E1. rewrite (nth_error_upd_nth_eq _ _ _ _ E) in E1. injection E1 as <-. reflexivity. }
+  destruct (t_cancelled t); [injection H as H _; rewrite (Q _ _ (eq_sym H) eq_refl); split; [discriminate|intros; discriminate]|].
+  destruct (sem_free s); [injection H as H _; rewrite (Q _ _ (eq_sym H) eq_refl); split; [discriminate|intros; discriminate]|].
+  destruct (sem_wait s); [|injection H as H _; rewrite (Q _ _ (eq_sym H) eq_refl); split; [discriminate|intros; discriminate]].
+  destruct (t_builtin t); injection H as H _; rewrite (Q _ _ (eq_sym H) eq_refl).
+  - split; [discriminate|]. intros o [= <-]. auto.
+  - split; auto. intros; discriminate.
+Qed.
+
+Lemma body_cancel_fn t o : body_of_outcome (cancel_fn t) o = body_of_outcome t o.
+Proof. unfold cancel_fn. destruct (t_st t); reflexivity. Qed.
+
+Lemma lifet_cancel_fn t ec gl : lifet t ec gl -> lifet (cancel_fn t) ec gl.
+Proof.
+  unfold lifet. intros H. destruct (t_st t) eqn:St; unfold cancel_fn; rewrite St; cbn; rewrite ?St; auto.
+  left. destruct H as [-> ->]. auto.
+Qed.
+
+Lemma enters_same s s' k t : nth_error (tasks s) k = Some t -> nth_error (tasks s') k = Some t -> enters k s s' = false.
+Proof.
+  intros E E'. unfold enters, before_start, in_handler. rewrite E, E'. destruct (t_st t); reflexivity.
+Qed.
+
+Lemma enters_st s s' k t t' : nth_error (tasks s) k = Some t -> nth_error (tasks s') k = Some t' ->
+  enters k s s' = (rank (t_st t) <? 2) && match t_st t' with TRunning => true | _ => false end.
+Proof. intros E E'. unfold enters, before_start, in_handler. rewrite E, E'. reflexivity. Qed.
+
+(* one window *)
+Lemma life_step c k s l s' os ec gl : reach c s -> step s l = Some (s', os) -> life k s ec gl ->
+  life k s' (ec + (if enters k s s' then 1 else 0)) (gl ++ gate_of k s l).
+Proof.
+  intros R H L. pose proof (reach_reachf _ _ R) as Rf. pose proof (reachf_inv _ _ Rf) as I.
+  (* the gate *)
+  assert (Dg : (exists p o, l = LGate p o) \/ (forall p o, l <> LGate p o)).
+  { destruct l; try (right; intros; discriminate). left; eauto. }
+  destruct Dg as [(p & o & ->)|Ng].
+  { destruct (gate_window_idx _ _ _ _ _ H) as (k0 & t0 & Gi & E0 & St0 & E0' & Oth & New).
+    unfold life in *. cbn [gate_of]. rewrite Gi.
+    destruct (Nat.eqb_spec k0 k) as [->|N].
+    - rewrite E0 in L. rewrite E0'. rewrite (enters_st _ _ _ _ _ E0 E0'). cbn. rewrite St0. cbn.
+      unfold lifet in *. cbn. rewrite St0 in L. destruct L as (-> & -> & ->). cbn. auto.
+    - rewrite app_nil_r. destruct (nth_error (tasks s) k) as [t|] eqn:E.
+      + rewrite (Oth _ _ (not_eq_sym N) E). rewrite (enters_same _ _ _ _ E (Oth _ _ (not_eq_sym N) E)).
+        rewrite Nat.add_0_r. auto.
+      + destruct L as [-> ->]. destruct (nth_error (tasks s') k) as [t'|] eqn:E'.
+        * assert (En : enters k s s' = false).
+          { unfold enters, in_handler. rewrite E'. destruct (New _ E _ E') as [S|S]; rewrite S; apply andb_false_r. }
+          rewrite En. unfold lifet. destruct (New _ E _ E') as [S|S]; rewrite S; auto.
+        * unfold enters, in_handler. rewrite E'. rewrite andb_false_r. auto. }
+  assert (Gz : gate_of k s l = []) by (destruct l; auto; destruct (Ng params o); auto).
+  rewrite Gz, app_nil_r.
+  apply step_decompose in H as (Cr & s1 & os1 & Hr & Hs).
+  assert (G : grows s1 s').
+  { destruct Hs as [(_ & -> & _)|(_ & Hs)]; [apply grows_refl|eapply settle_grows; eauto]. }
+  destruct G as [K Fr].
+  unfold life in *. destruct (nth_error (tasks s) k) as [t|] eqn:E.
+  2:{ (* the task does not exist yet: it may be created, fresh *)
+    destruct L as [-> ->].
+    assert (New : forall t', nth_error (tasks s') k = Some t' -> fresh_st t').
+    { intros t' E'. destruct (nth_error (tasks s1) k) as [t1|] eqn:E1; [|eapply Fr; eauto].
+      rewrite (K _ _ E1) in E'. injection E' as <-.
+      destruct (raw_shape_ok _ _ _ _ I Hr) as [_ Ln| -> |v un _ _ _ _ Ln].
+      - apply nth_error_None in E. apply nth_error_some_lt in E1. lia.
+      - destruct (dequeue_grows s) as [_ Fd]. eapply Fd; eauto.
+      - apply nth_error_None in E. apply nth_error_some_lt in E1. lia. }
+    destruct (nth_error (tasks s') k) as [t'|] eqn:E'.
+    - assert (En : enters k s s' = false).
+      { unfold enters, in_handler. rewrite E'. destruct (New _ eq_refl) as [S|S]; rewrite S; apply andb_false_r. }
+      rewrite En. unfold lifet. destruct (New _ eq_refl) as [S|S]; rewrite S; auto.
+    - unfold enters, in_handler. rewrite E'. rewrite andb_false_r. auto. }
+  destruct (raw_tchg _ _ _ _ I Hr _ _ E) as (t1 & E1 & Tc).
+  pose proof (K _ _ E1) as E'. rewrite E'. rewrite (enters_st _ _ _ _ _ E E').
+  destruct Tc as [_ | Ow _ _ _ | p o El St | El St Ur Cn | x El St Ur Cn Hx | o El St | j El Nj St].
+  - (* unchanged *) destruct (t_st t); cbn; rewrite ?andb_false_r, Nat.add_0_r; auto.
+  - (* cancelled *)
+    assert (Z : (rank (t_st t) <? 2) && match t_st (cancel_fn t) with TRunning => true | _ => false end = false).
+    { unfold cancel_fn. destruct (t_st t) eqn:St; cbn; rewrite ?St; auto. }
+    rewrite Z, Nat.add_0_r. apply lifet_cancel_fn; auto.
+  - destruct (Ng _ _ El).
+  - (* acquire with a cancelled context *)
+    cbn. rewrite andb_false_r, Nat.add_0_r. unfold lifet in *. rewrite St in L. cbn. destruct L as [-> ->]. auto.
+  - (* acquire *)
+    subst l. destruct (acquire_st _ _ _ _ _ _ Hr E E1) as [Br Bh]. cbn in Br, Bh.
+    unfold lifet in *. rewrite St in L. destruct L as [-> ->]. rewrite St. cbn.
+    destruct Hx as [->|[->| ->]]; cbn.
+    + auto.
+    + rewrite (Br eq_refl). auto.
+    + destruct (Bh _ eq_refl) as [Bt _]. rewrite Bt. auto.
+  - (* invoke returned *)
+    cbn. rewrite andb_false_r, Nat.add_0_r. unfold lifet in *. rewrite St in L. cbn.
+    destruct (t_builtin t) eqn:B.
+    + destruct L as (-> & -> & ->). left. auto.
+    + destruct L as (-> & ->). right. split; auto. split; auto. exists o. auto.
+  - (* granted a slot *)
+    unfold lifet in *. rewrite St in L. destruct L as [-> ->]. rewrite St. unfold granted. cbn.
+    destruct (t_builtin t) eqn:B; cbn; rewrite ?B; auto.
+Qed.
+
+Lemma life_run c k : forall tr s s' oss ec gl, reach c s -> run s tr = Some (s', oss) -> life k s ec gl ->
+  life k s' (ec + enter_count k s tr) (gl ++ gate_log k s tr).
+Proof.
+  induction tr as [|l r IH]; cbn; intros s s' oss ec gl R H L.
+  - injection H as <- _. rewrite Nat.add_0_r, app_nil_r. auto.
+  - destruct (step s l) as [[s1 os]|] eqn:St; [|discriminate].
+    destruct (run s1 r) as [[s2 oss2]|] eqn:Rn; [|discriminate]. injection H as <- _.
+    pose proof (life_step c k s l s1 os ec gl R St L) as L1.
+    pose proof (IH _ _ _ _ _ (reach_step _ _ _ _ _ R St) Rn L1) as L2.
+    rewrite Nat.add_assoc, app_assoc. exact L2.
+Qed.
+
+(* the life of every task of every trace *)
+Theorem c01_task_life c tr s oss k t : run (init_of c) tr = Some (s, oss) -> nth_error (tasks s) k = Some t ->
+  lifet t (enter_count k (init_of c) tr) (gate_log k (init_of c) tr).
+Proof.
+  intros H E.
+  assert (L0 : life k (init_of c) 0 []) by (unfold life; cbn; destruct k; cbn; auto).
+  pose proof (life_run c k tr _ _ _ 0 [] (reach_init c) H L0) as L. unfold life in L. rewrite E in L. exact L.
+Qed.
+
+(* C01: the body stored for a call of a user handler, unless it is the cancellation error, is the body of the
+   outcome given by the one gate of the one invocation of its handler *)
+Theorem c01_body_is_unique_outcome c tr s oss k t b : run (init_of c) tr = Some (s, oss) ->
+  nth_error (tasks s) k = Some t -> t_st t = TDone (Some b) -> t_builtin t = false -> b <> cancel_err ->
+  enter_count k (init_of c) tr = 1 /\ exists o, gate_log k (init_of c) tr = [o] /\ Some b = body_of_outcome t o.
+Proof.
+  intros H E St B Nc. pose proof (c01_task_life c tr s oss k t H E) as L. unfold lifet in L. rewrite St in L.
+  destruct L as [(_ & _ & [Q|(Q & _)])|(Ec & _ & o & Gl & Q)].
+  - injection Q as ->. congruence.
+  - congruence.
+  - split; auto. exists o. auto.
+Qed.
+
+(* a call that ended with the cancellation error: either its handler never ran (cancelled while queued or before
+   the semaphore) or it ran once and that is the outcome it returned *)
+Theorem c01_cancel_err_body c tr s oss k t : run (init_of c) tr = Some (s, oss) ->
+  nth_error (tasks s) k = Some t -> t_st t = TDone (Some cancel_err) -> t_builtin t = false ->
+  (enter_count k (init_of c) tr = 0 /\ gate_log k (init_of c) tr = []) \/
+  (enter_count k (init_of c) tr = 1 /\ exists o, gate_log k (init_of c) tr = [o] /\ body_of_outcome t o = Some cancel_err).
+Proof.
+  intros H E St B. pose proof (c01_task_life c tr s oss k t H E) as L. unfold lifet in L. rewrite St in L.
+  destruct L as [(Ec & Gl & _)|(Ec & _ & o & Gl & Q)]; [left; auto|right]. split; auto. exists o. auto.
+Qed.
+
+(* a member rejected by checkAndAssign: no handler entry, no gate *)
+Theorem c01_rejected_never_entered c tr s oss k t e : run (init_of c) tr = Some (s, oss) ->
+  nth_error (tasks s) k = Some t -> t_pre t = Some e ->
+  enter_count k (init_of c) tr = 0 /\ gate_log k (init_of c) tr = [].
+Proof.
+  intros H E P. pose proof (c01_task_life c tr s oss k t H E) as L. unfold lifet in L.
+  assert (R : reachf c s) by (apply reach_reachf; eapply run_reach; [apply reach_init|eauto]).
+  rewrite (task_pre_skip _ _ _ _ _ R E P) in L. exact L.
+Qed.
+
+(* the built-in rpc.serverInfo never enters a user handler and needs no gate *)
+Theorem c01_builtin_never_entered c tr s oss k t : run (init_of c) tr = Some (s, oss) ->
+  nth_error (tasks s) k = Some t -> t_builtin t = true ->
+  enter_count k (init_of c) tr = 0 /\ gate_log k (init_of c) tr = [].
+Proof.
+  intros H E B. pose proof (c01_task_life c tr s oss k t H E) as L. unfold lifet in L. rewrite B in L.
+  destruct (t_st t); try tauto.
+  - destruct L as (_ & _ & Q). discriminate.
+  - destruct L as [(Ec & Gl & _)|(_ & Q & _)]; [auto|discriminate].
+Qed.
+
+(** ** notifications *)
+(* a notification never ends with the cancellation error: its context is never cancelled *)
+Definition note_ok (s : state) : Prop :=
+  forall k t, nth_error (tasks s) k = Some t -> is_note t = true -> t_st t <> TDone (Some cancel_err).
+
+Lemma is_note_le t t' : task_le t t' -> is_note t' = is_note t.
+Proof. intros Le. unfold is_note. rewrite (tl_id _ _ Le). reflexivity. Qed.
+
+Lemma fresh_not_done t b : fresh_st t -> t_st t <> TDone b.
+Proof. intros [S|S]; rewrite S; discriminate. Qed.
+
+Theorem reachf_note_ok c s : reachf c s -> note_ok s.
+Proof.
+  induction 1 as [|s l s1 os R IH Cr H|s s' os R IH H].
+  - intros [|k] t E; discriminate.
+  - pose proof (reachf_inv _ _ R) as I. intros k t1 E1 Nt1.
+    destruct (nth_error (tasks s) k) as [t|] eqn:E.
+    + destruct (raw_tchg _ _ _ _ I H _ _ E) as (t1' & E1' & Tc). rewrite E1 in E1'. injection E1' as <-.
+      pose proof (is_note_le _ _ (tchg_le _ _ _ _ _ Tc)) as Nt. rewrite Nt1 in Nt. symmetry in Nt.
+      pose proof (IH _ _ E Nt) as P.
+      destruct Tc as [_ | Ow _ _ _ | p o El St | El St Ur Cn | x El St Ur Cn Hx | o El St | j El Nj St]; cbn; try congruence.
+      * rewrite (owner_not_note s k t (reachf_inv_used _ _ R) Ow E) in Nt. discriminate.
+      * rewrite (SrvC03.notes_never_cancelled _ _ _ _ R E Nt) in Cn. discriminate.
+      * destruct Hx as [->|[->| ->]]; discriminate.
+      * unfold body_of_outcome. rewrite Nt. discriminate.
+      * unfold granted. cbn. destruct (t_builtin t); discriminate.
+    + apply fresh_not_done.
+      destruct (raw_shape_ok _ _ _ _ I H) as [_ Ln| -> |v un _ _ _ _ Ln].
+      * apply nth_error_None in E. apply nth_error_some_lt in E1. lia.
+      * destruct (dequeue_grows s) as [_ Fd]. eapply Fd; eauto.
+      * apply nth_error_None in E. apply nth_error_some_lt in E1. lia.
+  - destruct (settle1_grows _ _ _ H) as [K Fr]. intros k t' E' Nt.
+    destruct (nth_error (tasks s) k) as [t|] eqn:E.
+    + rewrite (K _ _ E) in E'. injection E' as <-. eapply IH; eauto.
+    + apply fresh_not_done. eapply Fr; eauto.
+Qed.
+
+(* a notification to a user handler that has finished: its handler was entered exactly once, returned once, and
+   nothing was stored as a reply body *)
+Theorem c01_notification_once c tr s oss k t bo : run (init_of c) tr = Some (s, oss) ->
+  nth_error (tasks s) k = Some t -> is_note t = true -> t_builtin t = false -> t_st t = TDone bo ->
+  enter_count k (init_of c) tr = 1 /\ (exists o, gate_log k (init_of c) tr = [o]) /\ bo = None.
+Proof.
+  intros H E Nt B St. pose proof (c01_task_life c tr s oss k t H E) as L. unfold lifet in L. rewrite St in L.
+  assert (R : reachf c s) by (apply reach_reachf; eapply run_reach; [apply reach_init|eauto]).
+  destruct L as [(_ & _ & [Q|(Q & _)])|(Ec & _ & o & Gl & Q)].
+  - exfalso. apply (reachf_note_ok c s R k t E Nt). congruence.
+  - congruence.
+  - split; auto. split; [eauto|]. rewrite Q. unfold body_of_outcome. rewrite Nt. reflexivity.
+Qed.
+
+(* at a quiescent point: a runnable notification (to a user handler) of a message that has passed the barrier
+   has been entered exactly once, unless it is still queued for a slot with every slot taken *)
+Theorem c01_notification_once_at_quiescence c tr s oss k t : run (init_of c) tr = Some (s, oss) ->
+  quiescent s = true -> nth_error (tasks s) k = Some t -> is_note t = true -> t_pre t = None -> t_builtin t = false ->
+  SrvC03.released s (t_unit t) = true ->
+  enter_count k (init_of c) tr = 1 \/
+  (t_st t = TWaiting /\ sem_free s = 0 /\ enter_count k (init_of c) tr = 0).
+Proof.
+  intros H Q E Nt P B Rl.
+  assert (R : reach c s) by (eapply run_reach; [apply reach_init|eauto]).
+  pose proof (c01_task_life c tr s oss k t H E) as L. unfold lifet in L.
+  destruct (t_st t) eqn:St.
+  - exfalso. apply (task_nopre_noskip c s k t (reach_reachf _ _ R) E P). auto.
+  - destruct (SrvNoCrash.c03_only_slot_nc c s k t R Q E Rl) as (W & _); [rewrite St; auto|congruence].
+  - destruct (SrvNoCrash.c03_only_slot_nc c s k t R Q E Rl) as (_ & F & _); [rewrite St; auto|].
+    right. destruct L as [Ec _]. auto.
+  - left. destruct L as (Ec & _). auto.
+  - left. rewrite B in L. destruct L as (Ec & _). auto.
+  - left. destruct (c01_notification_once c tr s oss k t b H E Nt B St) as (Ec & _). auto.
+Qed.
+
+Example c01_body_is_unique_outcome_nonvacuous :
+  exists t, nth_error (tasks (st_of ex_cfg ex_tr_delivered)) 0 = Some t /\ t_st t = TDone (Some (BRes [50%N])) /\
+    t_builtin t = false /\ BRes [50%N] <> cancel_err /\ run (init_of ex_cfg) ex_tr_delivered <> None /\
+    enter_count 0 (init_of ex_cfg) ex_tr_delivered = 1 /\ gate_log 0 (init_of ex_cfg) ex_tr_delivered = [ORes [50%N]].
+Proof. eexists. vm_compute. repeat split; try reflexivity; discriminate. Qed.
+
+(* a call cancelled while it waits for a slot: answered with the cancellation error, never entered *)
+Definition ex_tr_cancel_wait : list label :=
+  [LStart; LRelNext; LFeed (FMsg (InMsgs true [ex_call [49%N] [1%N]; ex_call [50%N] [2%N]])); LRelRead; LRelBarrier;
+   LRelAcquire 0; LRelAcquire 1; LCallCancel 7 [50%N]; LRelCancel 7].
+
+Example c01_cancel_err_body_nonvacuous :
+  exists t, run (init_of ex_cfg) ex_tr_cancel_wait <> None /\
+    nth_error (tasks (st_of ex_cfg ex_tr_cancel_wait)) 1 = Some t /\ t_st t = TDone (Some cancel_err) /\
+    t_builtin t = false /\ enter_count 1 (init_of ex_cfg) ex_tr_cancel_wait = 0 /\
+    gate_log 1 (init_of ex_cfg) ex_tr_cancel_wait = [].
+Proof. eexists. vm_compute. repeat split; try reflexivity; discriminate. Qed.
+
+Example c01_notification_once_nonvacuous :
+  let tr := ex_tr_note ++ [LRelHandled 0] in
+  exists t, run (init_of ex_cfg) tr <> None /\ nth_error (tasks (st_of ex_cfg tr)) 0 = Some t /\ is_note t = true /\
+    t_builtin t = false /\ t_st t = TDone None /\ enter_count 0 (init_of ex_cfg) tr = 1 /\
+    gate_log 0 (init_of ex_cfg) tr = [ORes [50%N]].
+Proof. eexists. vm_compute. repeat split; try reflexivity; discriminate. Qed.
+
+Example c01_notification_once_at_quiescence_nonvacuous :
+  let tr := ex_tr_note ++ [LRelHandled 0; LRelNext] in
+  exists t, run (init_of ex_cfg) tr <> None /\ quiescent (st_of ex_cfg tr) = true /\
+    nth_error (tasks (st_of ex_cfg tr)) 0 = Some t /\ is_note t = true /\ t_pre t = None /\ t_builtin t = false /\
+    SrvC03.released (st_of ex_cfg tr) (t_unit t) = true.
+Proof. eexists. vm_compute. repeat split; try reflexivity; discriminate. Qed.
+
+Example c01_rejected_never_entered_nonvacuous :
+  let tr := [LStart; LRelNext; LFeed (FMsg (InMsgs false [ex_msg [49%N] [120%N] []])); LRelRead] in
+  exists t e, run (init_of ex_cfg) tr <> None /\ nth_error (tasks (st_of ex_cfg tr)) 0 = Some t /\ t_pre t = Some e.
+Proof. eexists _, _. vm_compute. repeat split; try reflexivity; discriminate. Qed.
+
+Example c01_builtin_never_entered_nonvacuous :
+  let tr := [LStart; LRelNext; LFeed (FMsg (InMsgs false [ex_msg [49%N] rpc_server_info []])); LRelRead; LRelBarrier;
+             LRelAcquire 0; LRelHandled 0] in
+  exists t, run (init_of ex_cfg2) tr <> None /\ nth_error (tasks (st_of ex_cfg2 tr)) 0 = Some t /\ t_builtin t = true /\
+    t_st t = TDone (Some BWild).
+Proof. eexists. vm_compute. repeat split; try reflexivity; discriminate. Qed.
